@@ -7,14 +7,20 @@
   *exactly* sufficient — the fixed defect F8 demanded strictly more), and the slot/tree counter
   arithmetic of the retry (`sync_then_get`).
 
-  PARTIAL: the end-to-end statement ("`get` returns `Memory` only if no frame is free", for every
-  history of a one-class one-slot allocator) needs the upper invariant (slot counter + tree
-  counter = free frames of the reserved tree; other trees' counters exact) and the completeness
-  of the tree scan; in progress. Until then carried by the single-slot correspondence histories
-  (exhaust, free any subset through the slot or with no slot, boundary cases) with the oracle
-  "out of memory ⇒ no free frame".
+  * `single_slot_complete` — **the end-to-end statement**: in every state satisfying the upper
+    invariant (every state of every sequential history of a constructed allocator, C02/C06) in
+    which only the caller's slot can hold a reservation (one class, one slot), with no offline
+    trees and more trees than slots, `get(order 0)` through the slot returns a frame whenever
+    *any* frame is free: the reservation's own counter, else the synchronisation with its
+    tree's global counter (`sync_exact`, the F8 boundary), else `search_and_reserve` over the
+    other trees (C10's completeness of the scan). `Proofs/UpperSingle.lean`: exact results of
+    `Locals::get` / `Trees::sync` / `Locals::put`, the complete case analysis of `get_local`
+    (`getLocal_cases`), and the counting argument that a failing `get_local` leaves an
+    unreserved tree with a positive counter whenever a frame is free.
 -/
 import LLFreeV.Model.Upper
+import LLFreeV.Proofs.UpperSingle
+import LLFreeV.Props.C06
 namespace LLFree.C11
 open LLFree
 
@@ -45,5 +51,22 @@ theorem sync_then_get (tr : Nat) (slot : LTree) (tree : Nat) (n g : Nat) (hp : s
 
 /-- Non-vacuity / regression: a reserved tree with exactly one free frame, one frame lacking. -/
 example : (Tree.syncSteal ⟨1, true, 0⟩ 1) = some ⟨0, true, 0⟩ := by decide
+
+/-- **C11, end to end.** -/
+theorem single_slot_complete (c : Cfg) (ok : CfgOk c) (m : Mem) (inv : UpperInv0 c (fun _ => False) m) (r : Request) (ho : r.order = 0)
+    (hcls : r.cls < 8) (lo : Nat) (hlo : r.loc = some lo) (rng : Nat × Nat) (hrng : c.slotRange r.cls = some rng)
+    (hloc : lo < rng.2) (hnt : rng.2 < c.ntrees) (hv : C08.ArgsValid c 0 r)
+    (hsingle : ∀ s (l' : LTree), m.slots[s]? = some l' → l'.present = true → s = rng.1 + lo)
+    (f : Nat) (hfree : m.allocated c.geom f = false) :
+    Runs m (get c none r) (fun res m' => (∃ x, res = .ok x) ∧ UpperInv0 c (fun _ => False) m' ∧ GetOutcome c m 0 none res m') :=
+  single_slot_get_complete ok inv r ho hcls lo hlo rng hrng hloc hnt hv hsingle f hfree
+
+/-- with a single slot in the whole configuration the side condition on the slots is automatic -/
+theorem single_of_one_slot (c : Cfg) (m : Mem) (hs : m.slots.size = 1) (s : Nat) (l' : LTree) (h : m.slots[s]? = some l') : s = 0 := by
+  have := (Array.getElem?_eq_some_iff.1 h).1
+  omega
+
+/-- the premises are satisfiable: the tiny one-class one-slot allocator of C06 -/
+example : C06.cTiny.slotRange 0 = some (0, 1) ∧ (1 : Nat) < C06.cTiny.ntrees ∧ C06.mTiny.slots.size = 1 := by decide
 
 end LLFree.C11
